@@ -114,7 +114,17 @@ LabReject(n, k, cli) ==
 \* unrelated large ICMP traffic (1 400-byte echo requests and replies) crosses the tracer while it runs: same result
 LabNoise(v, n, cli) ==
     [Lab(v, n, "closed", {}, 1, 1, cli) EXCEPT !.id = @ \o "/bigping", !.label = @ \o "/large_unrelated_icmp"] @@ [noise |-> "bigping", reject |-> 0]
-MoreC13 == { LabReject(n, k, c) : n \in {2, MaxN}, k \in {1, 2}, c \in BOOLEAN } \cup { LabNoise(v, 2, c) : v \in {<<"icmp", "">>, <<"udp", "">>, <<"tcp", "syn">>}, c \in BOOLEAN }
+\* a multi-homed tracer: the answers come back over another interface than the one the probes left through
+LabAsym(v, n, cli) ==
+    \* (router 1 answers from the address of the interface its answer leaves through: the second link's 10.99.0.2)
+    [Lab(v, n, IF v[1] = "tcp" THEN "open" ELSE "closed", {}, 1, 1, cli) EXCEPT !.id = @ \o "/asym", !.label = @ \o "/asymmetric_return_path",
+                                                                              !.expect.hops[1].addr = "10.99.0.2"] @@ [noise |-> "", reject |-> 0, asym |-> TRUE]
+\* many concurrent runs, many times: every run installs its own capture filter (thorough tier: the attach path of the real sockets)
+LabRepeat(v, n, k) ==
+    [Lab(v, n, "open", {}, 1, 8, TRUE) EXCEPT !.id = @ \o "/repeat" \o ToString(k), !.label = @ \o "/eight_concurrent_runs_repeated", !.req.e2e = 0] @@ [noise |-> "", reject |-> 0, repeat |-> k]
+MoreC13 == { LabAsym(v, 2, c) : v \in {<<"icmp", "">>, <<"udp", "">>, <<"tcp", "syn">>}, c \in BOOLEAN }
+           \cup (IF IOEnv.VT_TIER = "quick" THEN {} ELSE { LabRepeat(<<"tcp", "syn">>, 1, 40) })
+           \cup { LabReject(n, k, c) : n \in {2, MaxN}, k \in {1, 2}, c \in BOOLEAN } \cup { LabNoise(v, 2, c) : v \in {<<"icmp", "">>, <<"udp", "">>, <<"tcp", "syn">>}, c \in BOOLEAN }
 
 \* C08 on the real kernel: a target that silently drops the SYN (the black hole behind the last router). The SACK attempt is bounded by the
 \* handshake timeout (= the request timeout); prefer_sack then runs the SYN trace (n + 3 silent TTLs, one timeout each)
